@@ -13,6 +13,7 @@ mod sni;
 mod sniff;
 mod eyeballs;
 mod timeout;
+mod wire;
 
 use std::io::{BufRead, Write};
 
@@ -32,6 +33,7 @@ fn gen(stream: &str, seed: u64, n: u64) -> Vec<String> {
                 "sniff" => sniff::gen(&mut r, i),
                 "eb" => eyeballs::gen(&mut r, i),
                 "to" => timeout::gen(&mut r, i),
+                "wire" => wire::gen(&mut r, i),
                 _ => panic!("unknown stream {stream}"),
             };
             format!("{stream} {body}")
@@ -54,12 +56,15 @@ fn run_line(line: &str) -> String {
         "sniff" => sniff::run(&toks),
         "eb" => eyeballs::run(&toks),
         "to" => timeout::run(&toks),
+        "wire" => wire::run(&toks),
         _ => "unknown-stream".to_string(),
     };
     format!("{input} | {obs}")
 }
 
 fn main() {
+    // panics inside the code under test are observations, not noise
+    std::panic::set_hook(Box::new(|_| {}));
     let args: Vec<String> = std::env::args().collect();
     let out = std::io::stdout();
     let mut out = std::io::BufWriter::new(out.lock());
